@@ -35,7 +35,7 @@ LEVEL = "exploration"
 RULE = (
     "Hypothesis histories: hash seed x ordered multiset of corpus files (malformed prefix, repetitions) analysed in one "
     "fresh subprocess, and tree-scan sessions (T, other tree U with its own exclusions, T again, T with permuted "
-    "os.walk order) under a drawn hash seed. Non-trivial = hash seed != 0, order != corpus order and a malformed file "
+    "os.walk order; T holds re-included exclusions, whole-name files and one directory name at several places with an anchored exclusion) under a drawn hash seed. Non-trivial = hash seed != 0, order != corpus order and a malformed file "
     "precedes a well-formed one (files) / a session with a foreign tree in between (trees); distinct by digest of the history"
 )
 ASSUMPTIONS = [
